@@ -2,6 +2,7 @@ package sim
 
 import (
 	"fmt"
+	"strings"
 	"time"
 )
 
@@ -192,6 +193,176 @@ func (g *commonGen) template(w *World, name string, b int) []Step {
 			gen.Sec2 = &SecretRef{Kind: "literal", Lit: fmt.Sprintf("Fresh-Pass9!%d", g.r.Intn(100))}
 		}
 		out = append(out, gen)
+		return out
+	case "adversary_sms":
+		// the adversary knows the victim's password, owns account `a` with his
+		// own phone, and interleaves two primary logins in one browser
+		v := g.otherAcct(w, a)
+		gap := g.r.Dur(0, 9*time.Second)
+		if g.r.Chance(1, 3) {
+			gap = g.r.Dur(10*time.Second, 40*time.Second)
+		}
+		if c.WholeSecondClock {
+			gap = gap.Round(time.Second)
+		}
+		out := []Step{{Kind: "login", B: b, A: a, Sec: pw(a)}, {Kind: "login", B: b, A: v, Sec: pw(v), Gap: gap}}
+		code := &SecretRef{Kind: "sms", A: -1, Idx: -1 - g.r.Intn(2)}
+		out = append(out, Step{Kind: "sms_validate", B: b, A: v, Sec: code})
+		if g.r.Bool() {
+			out = append(out, Step{Kind: "totp_validate", B: b, A: v, Sec: &SecretRef{Kind: "totp", A: a}})
+		}
+		return out
+	case "adversary_codes":
+		// victim's password, then every code the adversary can get hold of
+		v := g.otherAcct(w, a)
+		out := []Step{{Kind: "login", B: b, A: v, Sec: pw(v)}}
+		if c.hasModule("otp") && g.r.Chance(1, 4) {
+			out[0] = Step{Kind: "otp_login", B: b, A: v, Sec: &SecretRef{Kind: "otp", A: v, Idx: -1}}
+		}
+		for i := 0; i < 1+g.r.Intn(3); i++ {
+			kind := "totp_validate"
+			if c.hasSetup("sms") && (!c.hasSetup("totp") || g.r.Bool()) {
+				kind = "sms_validate"
+			}
+			var sec *SecretRef
+			var str map[string]string
+			switch g.r.Intn(6) {
+			case 0:
+				sec = &SecretRef{Kind: "totp", A: a}
+			case 1:
+				sec = &SecretRef{Kind: "recovery", A: a, Idx: -1}
+			case 2:
+				sec = &SecretRef{Kind: "sms", A: -1, Idx: -1 - g.r.Intn(3)}
+			case 3:
+				sec = &SecretRef{Kind: "totp", A: v, Idx: -2 - g.r.Intn(100)}
+			case 4:
+				sec = &SecretRef{Kind: "empty"}
+			default:
+				sec, str = g.codeFor(w, kind, v, b)
+			}
+			out = append(out, Step{Kind: kind, B: b, A: v, Sec: sec, Str: str})
+		}
+		return out
+	case "gate_between_steps":
+		// the operator locks / re-starts confirmation between the two steps of a login
+		out := []Step{{Kind: "login", B: b, A: a, Sec: pw(a)}}
+		ops := []string{}
+		if c.hasModule("lock") {
+			ops = append(ops, "op_lock")
+		}
+		if c.hasModule("confirm") {
+			ops = append(ops, "op_start_confirm")
+		}
+		if len(ops) > 0 {
+			out = append(out, Step{Kind: ops[g.r.Intn(len(ops))], B: b, A: a})
+		}
+		if c.hasSetup("totp") {
+			out = append(out, Step{Kind: "totp_validate", B: b, A: a, Sec: &SecretRef{Kind: "totp", A: a}})
+		}
+		if c.hasSetup("sms") {
+			out = append(out, Step{Kind: "sms_validate", B: b, A: a, Sec: &SecretRef{Kind: "sms", A: -1, Idx: -1}})
+		}
+		return out
+	case "gated_paths":
+		// lock or un-confirm an account, then try every login path with good credentials
+		out := []Step{}
+		if c.hasModule("lock") && (g.r.Bool() || !c.hasModule("confirm")) {
+			out = append(out, Step{Kind: "op_lock", B: b, A: a})
+		} else if c.hasModule("confirm") {
+			out = append(out, Step{Kind: "op_start_confirm", B: b, A: a})
+		}
+		out = append(out, Step{Kind: "login", B: b, A: a, Sec: pw(a)})
+		if c.hasModule("otp") {
+			out = append(out, Step{Kind: "otp_login", B: b, A: a, Sec: &SecretRef{Kind: "otp", A: a, Idx: -1}})
+		}
+		if c.hasModule("recover") {
+			out = append(out, Step{Kind: "recover_start", B: b, A: a}, Step{Kind: "recover_end", B: b, A: a, Sec: &SecretRef{Kind: "recover", A: a, Idx: -1}, Sec2: &SecretRef{Kind: "literal", Lit: "G00d-enough!pw"}})
+		}
+		out = append(out, g.fill(w, "probe", b))
+		return out
+	case "oauth_gated":
+		prov := c.Providers[g.r.Intn(len(c.Providers))]
+		n := g.r.Intn(2)
+		mk := func() []Step {
+			return []Step{{Kind: "oauth2_start", B: b, Str: map[string]string{"provider": prov}},
+				{Kind: "oauth2_callback", B: b, A: n, Sec: &SecretRef{Kind: "state", A: -1, Idx: -1}, Str: map[string]string{"provider": prov, "code": "fresh"}}}
+		}
+		out := mk()
+		out = append(out, Step{Kind: "logout", B: b}, Step{Kind: "op_lock", B: b, A: -1, Str: map[string]string{"pid": "oauth2;;" + prov + ";;" + fmt.Sprintf("idp-%d", n)}})
+		out = append(out, mk()...)
+		out = append(out, Step{Kind: "probe", B: b, Str: map[string]string{"path": "/probe/lock"}})
+		return out
+	case "enroll_totp", "enroll_sms":
+		kind := strings.TrimPrefix(name, "enroll_")
+		out := []Step{{Kind: "login", B: b, A: a, Sec: pw(a)}}
+		if c.EmailAuth2FA {
+			out = append(out, Step{Kind: "everify_start", B: b, A: a, Str: map[string]string{"kind": kind}})
+			tok := &SecretRef{Kind: "everify", A: a, Idx: -1}
+			switch g.r.Intn(6) {
+			case 0:
+				tok = &SecretRef{Kind: "empty"}
+			case 1:
+				tok = &SecretRef{Kind: "everify", A: g.otherAcct(w, a), Idx: -1}
+			}
+			out = append(out, Step{Kind: "everify_end", B: b, A: a, Sec: tok, Str: map[string]string{"kind": kind}})
+		}
+		if kind == "totp" {
+			out = append(out, Step{Kind: "totp_setup", B: b, A: a})
+			code := &SecretRef{Kind: "totp_pending", A: b}
+			if g.r.Chance(1, 4) {
+				code = &SecretRef{Kind: "totp", A: g.otherAcct(w, a)}
+			}
+			out = append(out, Step{Kind: "totp_confirm", B: b, A: a, Sec: code})
+		} else {
+			num := acctPhone(a)
+			if a < len(w.Accts) {
+				num = w.Accts[a].Phone
+			}
+			out = append(out, Step{Kind: "sms_setup", B: b, A: a, Str: map[string]string{"number": num}})
+			if g.r.Chance(1, 4) {
+				// second setup for another number inside / outside the resend window
+				gap := g.r.Dur(0, 15*time.Second)
+				if c.WholeSecondClock {
+					gap = gap.Round(time.Second)
+				}
+				out = append(out, Step{Kind: "sms_setup", B: b, A: a, Gap: gap, Str: map[string]string{"number": acctPhone(g.otherAcct(w, a))}})
+			}
+			out = append(out, Step{Kind: "sms_confirm", B: b, A: a, Sec: &SecretRef{Kind: "sms", A: -1, Idx: -1 - g.r.Intn(2)}})
+		}
+		return out
+	case "everify_probe":
+		// try to obtain the e-mail authorisation without the mail
+		kind := "totp"
+		if !c.hasSetup("totp") {
+			kind = "sms"
+		}
+		out := []Step{{Kind: "login", B: b, A: a, Sec: pw(a)}}
+		toks := []*SecretRef{{Kind: "empty"}, g.garbage(), {Kind: "everify", A: g.otherAcct(w, a), Idx: -1}}
+		out = append(out, Step{Kind: "everify_end", B: b, A: a, Sec: toks[g.r.Intn(len(toks))], Str: map[string]string{"kind": kind}})
+		out = append(out, Step{Kind: kind + "_setup", B: b, A: a, Str: map[string]string{"number": acctPhone(a)}})
+		return out
+	case "remove_factor":
+		out := []Step{{Kind: "login", B: b, A: a, Sec: pw(a)}}
+		if a < len(w.Accts) && w.KB.TOTPSecret[a] != "" {
+			out = append(out, Step{Kind: "totp_validate", B: b, A: a, Sec: &SecretRef{Kind: "totp", A: a}})
+			sec, str := g.codeFor(w, "totp_remove", a, b)
+			out = append(out, Step{Kind: "totp_remove", B: b, A: a, Sec: sec, Str: str})
+		} else if a < len(w.Accts) && w.KB.SMSNumber[a] != "" {
+			out = append(out, Step{Kind: "sms_validate", B: b, A: a, Sec: &SecretRef{Kind: "sms", A: -1, Idx: -1}},
+				Step{Kind: "sms_remove", B: b, A: a, Sec: &SecretRef{Kind: "empty"}, Gap: 11 * time.Second},
+				Step{Kind: "sms_remove", B: b, A: a, Sec: &SecretRef{Kind: "sms", A: -1, Idx: -1}})
+		}
+		return out
+	case "halfauth_settings":
+		// a cookie-authenticated (half-auth) session tries to change 2FA settings
+		out := []Step{{Kind: "login", B: b, A: a, Sec: pw(a), RM: true}, {Kind: "drop_session", B: b}, g.fill(w, "probe", b)}
+		for _, k := range []string{"totp_setup", "recovery_regen", "totp_remove", "sms_remove", "sms_setup"} {
+			if g.r.Bool() {
+				st := g.fill(w, k, b)
+				st.A = a
+				out = append(out, st)
+			}
+		}
 		return out
 	case "twofa_login":
 		// primary credential then the right second factor
